@@ -237,6 +237,7 @@ func genC17(t *Tape) *Plan {
 	cfg := &g.plan.Cfg
 	GenSchedConfig(t, cfg)
 	cfg.Auth = "perm"
+	cfg.TopicAliasMax = 4 // inbound topic aliases are one of the routes
 	cfg.Obscure = t.Draw("c17.obscure", 3) == 0
 	// random permission relation
 	for _, cl := range []string{"a", "b", "c"} {
@@ -251,6 +252,38 @@ func genC17(t *Tape) *Plan {
 			}
 		}
 	}
+	if t.Draw("c17.shape", 4) == 0 {
+		// alias skeleton: a publisher without write permission on T first names T together with a topic alias (that
+		// publish must be refused), then publishes with the alias alone; a subscriber that may read T listens
+		ids := []string{"a", "b", "c"}
+		x := t.Draw("c17.pubslot", 3)
+		y := (x + 1 + t.Draw("c17.subslot", 2)) % 3
+		tp := []string{"t", "u", "s/x", "w"}[t.Draw("c17.aliastopic", 4)]
+		var deny []DenyRule
+		for _, d := range cfg.Deny {
+			if (d.Client == ids[y] || d.Client == "") && !d.Write && d.Topic == tp {
+				continue // the subscriber may read T
+			}
+			deny = append(deny, d)
+		}
+		cfg.Deny = append(deny, DenyRule{Client: ids[x], Topic: tp, Write: true})
+		ci := g.Connect(y)
+		_ = ci
+		si := g.Subscribe(y)
+		g.plan.Ops[si].Pkt.Filters = []refcodec.Filter{{Filter: tp, Opts: 0}}
+		cx := g.Connect(x)
+		g.plan.Ops[cx].Pkt.ProtoVer = 5
+		g.slots[x].ver = 5
+		for _, topic := range []string{tp, ""} {
+			i := g.Publish(x)
+			p := g.plan.Ops[i].Pkt
+			p.Topic = topic
+			p.Props = append(p.Props, refcodec.Prop{ID: refcodec.PTopicAlias, Int: 1})
+		}
+		for i := range g.plan.Ops {
+			g.plan.Ops[i].Concurrent = false
+		}
+	}
 	n := 8 + t.Draw("c17.len", 13)
 	for len(g.plan.Ops) < n {
 		if t.Draw("c17.special", 8) == 0 {
@@ -259,6 +292,20 @@ func genC17(t *Tape) *Plan {
 			i := g.Connect(slot)
 			if w := g.plan.Ops[i].Pkt.Will; w != nil {
 				w.Topic = []string{"t/#", "+/t", "$SYS/will"}[t.Draw("c17.badwill", 3)]
+			}
+		} else if t.Draw("c17.alias", 6) == 0 {
+			// a route of its own: the topic is named through an inbound topic alias (bound by an earlier publish on
+			// the connection, which may itself have been refused)
+			slot := t.Draw("op.slot", k.Slots)
+			g.ensureConnected(slot)
+			if g.slots[slot].ver != 5 {
+				continue
+			}
+			i := g.Publish(slot)
+			p := g.plan.Ops[i].Pkt
+			p.Props = append(p.Props, refcodec.Prop{ID: refcodec.PTopicAlias, Int: uint32(1 + t.Draw("c17.aliasn", 2))})
+			if t.Draw("c17.aliasonly", 2) == 1 {
+				p.Topic = ""
 			}
 		} else {
 			g.Step()
@@ -314,8 +361,14 @@ func checkC17(r *Result) []Violation {
 			if denied(cfg, id, pr.P.Topic, false) {
 				out = append(out, viol("C17", "delivered-despite-read-deny", fmt.Sprintf("conn %d (client %q) received %s although its read permission on %q is denied", c.Idx, id, pr.P, pr.P.Topic), pr.Seq, "route", route))
 			}
-			if known && denied(cfg, s.client, s.topic, true) {
-				out = append(out, viol("C17", "routed-despite-write-deny", fmt.Sprintf("conn %d received %s: its publisher %q has no write permission on %q (%s)", c.Idx, pr.P, s.client, s.topic, s.kind), pr.Seq, "route", route, "origin", s.kind))
+			// judged on the topic it arrives on as well as on the topic the publisher named: a publish that names its
+			// topic only through an alias carries an empty topic
+			if known && (denied(cfg, s.client, s.topic, true) || denied(cfg, s.client, pr.P.Topic, true)) {
+				origin := s.kind
+				if s.kind == "publish" && s.topic == "" {
+					origin = "publish-by-alias"
+				}
+				out = append(out, viol("C17", "routed-despite-write-deny", fmt.Sprintf("conn %d received %s: its publisher %q has no write permission on %q (%s)", c.Idx, pr.P, s.client, pr.P.Topic, origin), pr.Seq, "route", route, "origin", origin))
 			}
 			if known && s.kind == "publish" && strings.HasPrefix(s.topic, "$SYS") {
 				out = append(out, viol("C17", "client-publish-to-sys-routed", fmt.Sprintf("conn %d received %s which a client published to a $SYS topic", c.Idx, pr.P), pr.Seq, "route", route))
@@ -358,7 +411,7 @@ func checkC17(r *Result) []Violation {
 	for _, e := range r.H.Evs {
 		if e.Kind == "hook" && e.Str == "retain" && e.N == 1 {
 			topic, payload := splitHookStr(e.Str2)
-			if s, ok := srcs[payload]; ok && denied(cfg, s.client, s.topic, true) {
+			if s, ok := srcs[payload]; ok && (denied(cfg, s.client, s.topic, true) || denied(cfg, s.client, topic, true)) { // the topic it was retained on: an alias-only publish names none itself
 				out = append(out, viol("C17", "retained-despite-write-deny", fmt.Sprintf("message %q from %q retained on %q although its write permission is denied (%s)", payload, s.client, topic, s.kind), e.Seq, "origin", s.kind))
 			}
 		}
